@@ -30,8 +30,8 @@ CHECK_DEADLOCK FALSE
 """ % (maxv, fam, "Emit " if emit else "")
 
 
-def akey(enc, enabled, size, wire):
-    return (enc, tuple(sorted(enabled)), size, wire)
+def akey(enc, enabled, size, wire, framing="length"):
+    return (enc, tuple(sorted(enabled)), size, wire, framing)
 
 
 def build_plan(c, triples):
@@ -40,8 +40,9 @@ def build_plan(c, triples):
     rng = c.rng
     plan = []
 
-    def add(enc, enabled, size, mx, kind, level):
-        plan.append(dict(id=len(plan) + 1, enc=enc, enabled=list(enabled), size=size, max=mx, kind=kind, level=level))
+    def add(enc, enabled, size, mx, kind, level, framing="length"):
+        plan.append(dict(id=len(plan) + 1, enc=enc, enabled=list(enabled), size=size, max=mx, kind=kind, level=level,
+                         framing=framing))
 
     mids = [100, 1000, 4096, 65535, 65537] if q else [64, 100, 1000, 4096, 32768, 65535, 65537, 262144]
     for (enc, enabled, size) in triples:
@@ -56,6 +57,13 @@ def build_plan(c, triples):
         else:
             add(enc, enabled, size, 65536, rng.choice(["zeros", "zeros", "text"]), rng.choice(lv))
         add(enc, enabled, size, rng.choice(mids), rng.choice(["random", "text"]), rng.choice(lv))
+        # the same body sent by a hand-made client that does not declare the length (Transfer-Encoding: chunked)
+        if size != "empty":
+            if enc in ("none", "br"):      # wire class follows from the size
+                add(enc, enabled, size, rng.choice([12] + mids), rng.choice(["random", "text"]), 0, "chunked")
+            else:
+                add(enc, enabled, size, 12, "random", rng.choice(lv), "chunked")
+                add(enc, enabled, size, 65536, "zeros", 0, "chunked")
     # limit / level / content sweep on the default list and on the list without the identity entry
     full = ["identity"] + CODINGS
     sweep = [1, 2, 17, 100, 4095, 65536, 1 << 20] if q else \
@@ -69,6 +77,8 @@ def build_plan(c, triples):
                     lvls = LEVELS[enc] if (not q or mx in (17, 65536)) else [rng.choice(LEVELS[enc])]
                     for lvl in lvls:
                         add(enc, full, size, mx, kind, lvl)
+                    if size != "empty" and (kind != "text" or not q) and (enc in ("none", "br") or not q or mx in (17, 65536)):
+                        add(enc, full, size, mx, kind, lvls[0], "chunked")
     # block-size boundaries of the streaming coders (snappy 64 KiB chunks, zstd 128 KiB blocks, lz4 4 MiB blocks),
     # well below the limit: pure round trip
     ns = [65535, 65536, 65537, (1 << 20) + 1] if q else \
@@ -102,12 +112,14 @@ def run(c):
         raise vlib.Inconclusive("generator failed: %s\n%s" % (r.error, r.out[-1500:]))
     exp = {}
     for k in r.printed:
-        exp.setdefault(akey(k["enc"], k["enabled"], k["size"], k["wire"]), []).append(k)
+        exp.setdefault(akey(k["enc"], k["enabled"], k["size"], k["wire"], k["framing"]), []).append(k)
     nfam = 16 if q else 128
-    want_cases = nfam * (2 * 6 * 1 + 6 * 6 * 2)  # none, br: 1 wire class per size; 6 codings: 2 wire classes
+    # none, br: 1 wire class per size; 6 codings: 2 wire classes; framing "length": 6 sizes, "chunked": 5 (not empty)
+    want_cases = nfam * (2 * 6 * 1 + 6 * 6 * 2) + nfam * (2 * 5 * 1 + 6 * 5 * 2)
     if len(exp) != want_cases:
         raise vlib.Inconclusive("generator produced %d abstract cases, expected %d" % (len(exp), want_cases))
     triples = sorted({(k[0], k[1], k[2]) for k in exp})
+    nchunk_unrealised = 0
 
     binp = c.go_build("httpingress", pkg="./cmd")
     if c.replay:
@@ -142,7 +154,9 @@ def run(c):
         p = byid[o["id"]]
         rq, ob, ex = o["req"], o["obs"], o["extra"]
         wire = "gt" if rq["w"] > rq["max"] else "le"
-        k = akey(rq["enc"], rq["enabled"], p["size"], wire)
+        k = akey(rq["enc"], rq["enabled"], p["size"], wire, p.get("framing", "length"))
+        if p.get("framing") == "chunked" and ob["ran"] and ex.get("handler_te") != "chunked":
+            nchunk_unrealised += 1         # the request did not arrive with unknown length
         failed = [f for f in v["failed"]]
         if k in exp:
             realised.add(k)
@@ -150,8 +164,8 @@ def run(c):
             nviol[failed[0]] = nviol.get(failed[0], 0) + 1
             if nviol[failed[0]] > 5:        # at most 5 replay files per clause; the count is reported below
                 continue
-            what = ("clause %s violated: enc=%s level=%s enabled=%s body=%s/%s n=%d wire=%d max=%d -> handler ran=%s status=%s(%s) "
-                    "read=%d err=%s bytes-equal=%s [%s]" % (",".join(failed), rq["enc"], p["level"], rq["enabled"], p["size"], p["kind"],
+            what = ("clause %s violated: enc=%s level=%s framing=%s enabled=%s body=%s/%s n=%d wire=%d max=%d -> handler ran=%s status=%s(%s) "
+                    "read=%d err=%s bytes-equal=%s [%s]" % (",".join(failed), rq["enc"], p["level"], p.get("framing", "length"), rq["enabled"], p["size"], p["kind"],
                                                        rq["n"], rq["w"], rq["max"], ob["ran"], ob["status"], ex.get("code"),
                                                        ob["nread"], ob["rerr"], ob["eq"], ex.get("neterr", ex.get("rerr_text", ""))))
             c.violation(what, replay_obj=dict(plan=p, observed=o, failed=failed))
@@ -166,10 +180,12 @@ def run(c):
                 ndrift += 1
                 c.model_drift("abstract case %s: machine specifies %s, real code gave %s (plan %s)" % (k, sorted(wants), got, p))
         if rq["enc"] not in ("none", "br") and rq["n"] > 0:
-            nontrivial.add((rq["enc"], p["level"], tuple(sorted(rq["enabled"])), rq["n"], rq["max"], p["kind"]))
+            nontrivial.add((rq["enc"], p["level"], tuple(sorted(rq["enabled"])), rq["n"], rq["max"], p["kind"], p.get("framing", "length")))
     if nviol:
         c.log("observations violating a clause: %s" % nviol)
         c.extra["violating_observations"] = nviol
+    if nchunk_unrealised:
+        raise vlib.Inconclusive("%d requests planned with chunked framing reached the handler with a declared length" % nchunk_unrealised)
     c.traces_validated += ok
     c.evaluations = len(obs)
     unreal = sorted(set(exp) - realised)
@@ -201,7 +217,7 @@ def run(c):
         "http.MaxBytesReader delivers at most its limit (Go standard library)",
         "enabled-decoder lists are drawn from the supported names; a request without Content-Encoding to a server whose list lacks the identity entry, and an encoded body that alone exceeds the limit while the plain body fits, are left open by the statement (both outcomes admitted)",
         "TLS off; HTTP/1.1 over loopback"]
-    c.finish_args = dict(rule="abstract cases = coding x enabled-decoder list (%s family) x size class {empty, small, limit-1, limit, limit+1, >>limit} x wire class, "
+    c.finish_args = dict(rule="abstract cases = coding x enabled-decoder list (%s family) x size class {empty, small, limit-1, limit, limit+1, >>limit} x wire class x framing {content-length, chunked}, "
                               "enumerated by TLC; each realised by concrete requests over limits/levels/contents chosen by the plan (seeded); "
                               "non-trivial = distinct (coding, level, enabled list, body length, limit, content kind) with a non-empty body and a real coding" % fam,
                          distinct_nontrivial=len(nontrivial))
